@@ -28,8 +28,20 @@ func kthPerm(n, k int) []int {
 	for i := range idx {
 		idx[i] = i
 	}
-	if k == 0 || n < 2 || n > 12 {
+	if k == 0 || n < 2 {
 		return idx
+	}
+	if n > 12 {
+		// too many orders to enumerate: a fixed scramble (stride coprime to n, offset k)
+		stride := 7
+		for n%stride == 0 {
+			stride += 4
+		}
+		out := make([]int, n)
+		for i := range out {
+			out[i] = (i*stride + k) % n
+		}
+		return out
 	}
 	f := 1
 	for i := 2; i <= n; i++ {
@@ -272,6 +284,17 @@ func isoFamilyCases(thorough bool, structural bool, visit func(c isoCase)) {
 			mkFileAbs(filepath.Join(dir, "small.bin"), 100, 2, baseTime)
 			mkFileAbs(filepath.Join(dir, "big.bin"), sz, 7, baseTime)
 			mkFileAbs(filepath.Join(dir, "zz", "after.bin"), 2049, 3, baseTime)
+		}})
+	}
+	// a multi-extent file in a crowded directory whose listing comes back in scrambled order
+	for _, pm := range []int{1, 5} {
+		pm := pm
+		visit(isoCase{desc: sprintf("big file among 20 files, scrambled listing %d", pm), family: "bigcrowd", huge: true, perm: pm, build: func(dir string) {
+			for i := 0; i < 20; i++ {
+				mkFileAbs(filepath.Join(dir, "d", sprintf("f%02d.bin", i)), int64(i*300+1), byte(i), baseTime)
+			}
+			mkFileAbs(filepath.Join(dir, "d", "g_big.bin"), 2*0xFFFFF800+5, 7, baseTime)
+			mkFileAbs(filepath.Join(dir, "d", "zz_after.bin"), 2049, 3, baseTime)
 		}})
 	}
 	if !structural {
